@@ -407,6 +407,58 @@ def concretize(m, op):
         V[name] = set_path(root, path, new)
         return {"src": stmt, "cls": cls}
 
+    if k == "everydeep":
+        # the slice is not the last step of the path: every x[lo:hi][j] = v / every x[lo:hi][j:] = v writes INSIDE each element
+        cs = m.containers()
+        if not cs:
+            return None
+        name = r.pick(cs)
+        root = V[name]
+        path = walk(r, root, 2, want=lambda x: isinstance(x, list) and len(x) > 0 and all(isinstance(e, list) and len(e) > 0 for e in x))
+        if path is None:
+            return None
+        lst = get_path(root, path)
+        n = len(lst)
+        lo = r.below(n + 1)
+        hi = lo + r.below(n - lo + 1)
+        lo_s = "" if (lo == 0 and r.below(2)) else str(lo)
+        hi_s = "" if (hi == n and r.below(2)) else str(hi)
+        idxs = list(range(lo, hi))
+        m_ = min(len(e) for e in lst)
+        j = r.below(m_)
+        v = gen_value(r, 1)
+        new = [list(e) for e in lst]
+        if r.below(3) == 0:
+            for i in idxs:
+                new[i] = new[i][:j] + [dc(v) for _ in new[i][j:]]
+            inner = "[%d:]" % j
+        else:
+            for i in idxs:
+                new[i][j] = dc(v)
+            inner = "[%d]" % j
+        V[name] = set_path(root, path, new)
+        return {"src": "every %s[%s:%s]%s = %s" % (render_path(name, path), lo_s, hi_s, inner, render(v)), "cls": "every:deep"}
+
+    if k == "opassign_selfmut":
+        # the right-hand side itself mutates the target: the operator still combines the value read BEFORE the
+        # right-hand side ran with the right-hand side's result
+        cs = m.containers()
+        if not cs:
+            return None
+        name = r.pick(cs)
+        root = V[name]
+        path = walk(r, root, 2, want=lambda x: isinstance(x, list) and len(x) > 0)
+        if path is None:
+            return None
+        lst = get_path(root, path)
+        tgt = render_path(name, path)
+        if r.below(2):
+            stmt, new = "%s ++= [pop %s]" % (tgt, tgt), list(lst) + [dc(lst[-1])]
+        else:
+            stmt, new = "%s ++= [remove %s[0]]" % (tgt, tgt), list(lst) + [dc(lst[0])]
+        V[name] = set_path(root, path, new)
+        return {"src": stmt, "cls": "opassign:rhs_mutates_target"}
+
     if k == "everyvars":
         if len(V) < 2:
             return None
@@ -648,5 +700,5 @@ BUILTIN_CALLS = [
     "(\\t, u = %(x)s -> (u[0] = 99; u))(1)", "[%(x)s, %(x)s] map (\\t -> (t[0] = 99; t))", "(_ append 1)(%(x)s)", "%(x)s then (\\t -> (remove t[0]; t))",
 ]
 
-KINDS = ["decl", "alias", "alias", "setidx", "setidx", "setidx", "opassign", "opassign", "defop", "every", "everyvars",
+KINDS = ["decl", "alias", "alias", "setidx", "setidx", "setidx", "opassign", "opassign", "defop", "every", "everyvars", "everydeep", "opassign_selfmut",
          "pop", "remove", "remove", "swap", "consume", "update", "destructure", "callmut", "callbuiltin", "failop"]
